@@ -90,6 +90,12 @@ CHECKS = {
             "Shutdown is decided for cancellation in every reachable model state; on the code each constructed state is cancelled and return value, listener state, late "
             "connections, and latency class are compared with the specification.",
             LIFE + " An HTTP/1.1 exchange held across cancel is not constructed in the quick tier."),
+    'C07': ("H2FPConc.tla (writer = capture with two-step HEADERS, reader = four-read Marshal, one lock): Consistent + Exclusion checked by TLC for all interleavings, and the "
+            "lock-free variant shown to violate Consistent; TLC's interleavings forced on the real code with blocking verifhook points (reader parked at every point of Marshal, "
+            "serve goroutine parked between its two writes); forwarded fingerprints must lie in the snapshot set TLC computed; race-detector run as corroboration",
+            "Every interleaving of capture sub-steps and Marshal reads is explored on the model; on the code 90 gated schedules (park point x later frames x writer gate) are "
+            "deterministic replays - no timing luck - and each forwarded fingerprint must be the fingerprint of one instant.",
+            "Hooks sit inside the critical sections; the -race stress run is corroboration outside the TLA+ argument (it also reports an unrelated race in the x/net HPACK encoder, see DESIGN D15)."),
 }
 
 NOT_YET = {}
